@@ -58,7 +58,8 @@ def check(ctx: Ctx) -> str:
     ok = len(fors) == 1 and len(fors[0].body) == 1 and ast.unparse(fors[0].body[0]) == f"yield {ast.unparse(fors[0].target)}"
     ctx.check(ok, "Template.generate_async", "environment:Template.generate_async", "yields every event unchanged", "generate_async must yield every event of the root generator unchanged", f"src/jinja2/environment.py:{ga.lineno}")
     st = tpl.methods["stream"]
-    ctx.check(ast.unparse(astq.returns(st)[0].value) == "TemplateStream(self.generate(*args, **kwargs))", "Template.stream", "environment:Template.stream", "stream wraps generate", "stream must wrap self.generate(*args, **kwargs)", f"src/jinja2/environment.py:{st.lineno}")
+    st_n = repo.func("environment:Template.stream").nnode  # (normal form: a local naming the generator is inlined)
+    ctx.check(ast.unparse(astq.returns(st_n)[0].value) == "TemplateStream(self.generate(*args, **kwargs))", "Template.stream", "environment:Template.stream", "stream wraps generate", "stream must wrap self.generate(*args, **kwargs)", f"src/jinja2/environment.py:{st.lineno}")
     tm = repo.cls("environment:TemplateModule")
     ctx.check("body_stream = list(template.root_render_func(context))" in ast.unparse(tm.methods["__init__"]), "TemplateModule.__init__", "environment:TemplateModule.__init__", "module body", "a template module must collect the root generator's output as its body stream", tm.loc())
     ctx.check(ast.unparse(astq.returns(_norm(tm.methods["__str__"]))[0].value) == "concat(self._body_stream)", "TemplateModule.__str__", "environment:TemplateModule.__str__", "str(module)", "str(module) must be the concatenated body stream", tm.loc())
@@ -123,8 +124,17 @@ def check(ctx: Ctx) -> str:
     # takes effect for an iteration that is already running
     ti = repo.func("environment:TemplateStream.__iter__")
     tn_ = repo.func("environment:TemplateStream.__next__")
-    ri, rn = astq.returns(ti.node), astq.returns(tn_.node)
-    ctx.check(len(ri) == 1 and ast.unparse(ri[0].value) == "self" and len(rn) == 1 and ast.unparse(rn[0].value) == "self._next()", "stream:own-iterator", "environment:TemplateStream.__iter__", f"__iter__ returns {[ast.unparse(r.value) for r in ri if r.value is not None]}",
+    ri, rn = astq.returns(ti.nnode), astq.returns(tn_.nnode)
+
+    def _val(fn: ast.AST, r_: ast.Return) -> str:
+        # `event: str = self._next(); return event` is `return self._next()`
+        if isinstance(r_.value, ast.Name):
+            defs = [a_ for a_ in ast.walk(fn) if isinstance(a_, (ast.Assign, ast.AnnAssign)) and a_.value is not None and any(isinstance(t_, ast.Name) and t_.id == r_.value.id for t_ in (a_.targets if isinstance(a_, ast.Assign) else [a_.target]))]
+            if len(defs) == 1:
+                return ast.unparse(defs[0].value)
+        return ast.unparse(r_.value) if r_.value is not None else ""
+
+    ctx.check(len(ri) == 1 and _val(ti.nnode, ri[0]) == "self" and len(rn) == 1 and _val(tn_.nnode, rn[0]) == "self._next()", "stream:own-iterator", "environment:TemplateStream.__iter__", f"__iter__ returns {[ast.unparse(r.value) for r in ri if r.value is not None]}",
               "TemplateStream.__iter__ must return self and __next__ must return self._next(): handing out the underlying generator makes a running `for` loop ignore enable_buffering() / disable_buffering()", ti.loc())
 
     ctx.rule("R3", "dump writes every item of the stream, encoded when an encoding is given")
